@@ -1346,3 +1346,72 @@ pub fn relist_through_child_mut(c: &mut RetryingLockCollection<CN>, extra: Node)
         Err(_) => None,
     }
 }
+
+// ---------------------------------------------------------------------------------------
+// shared access to the members of an owned collection (there must be none)
+
+pub trait ChildFallback {
+    fn child(&self) -> NoAccess {
+        NoAccess
+    }
+}
+impl ChildFallback for RUnit {}
+pub trait SharedChildOpt<'a> {
+    fn shared_opt(self) -> Option<&'a CML>;
+}
+impl<'a> SharedChildOpt<'a> for &'a CML {
+    fn shared_opt(self) -> Option<&'a CML> {
+        Some(self)
+    }
+}
+impl<'a> SharedChildOpt<'a> for NoAccess {
+    fn shared_opt(self) -> Option<&'a CML> {
+        None
+    }
+}
+pub trait IterFallback {
+    fn iter(&self) -> NoIter {
+        NoIter
+    }
+}
+impl IterFallback for RUnit {}
+pub trait AllOpt<'a> {
+    fn all_opt(self) -> Option<Vec<&'a &'static mut Leaf>>;
+}
+impl<'a> AllOpt<'a> for NoIter {
+    fn all_opt(self) -> Option<Vec<&'a &'static mut Leaf>> {
+        None
+    }
+}
+impl<'a, I: Iterator<Item = &'a &'static mut Leaf>> AllOpt<'a> for I {
+    fn all_opt(self) -> Option<Vec<&'a &'static mut Leaf>> {
+        Some(self.collect())
+    }
+}
+
+/// shared references to the members of an owned collection over `&mut` leaves, through
+/// `child()`, `AsRef`, `iter()` or `&collection` as an iterator - whichever the library offers
+pub fn expose_owned(u: &'static RUnit) -> Option<(Vec<&'static Leaf>, &'static str)> {
+    #[allow(unused_imports)]
+    use self::ChildFallback as _;
+    #[allow(unused_imports)]
+    use self::IterFallback as _;
+    #[allow(unused_imports)]
+    use crate::caps::BoundNo as _;
+    fn refs(c: &'static CML) -> Vec<&'static Leaf> {
+        c.into_iter().map(|m| &**m).collect()
+    }
+    if let Some(c) = u.child().shared_opt() {
+        return Some((refs(c), "child"));
+    }
+    if let Some(c) = crate::caps::bound::<RUnit, CML>().as_ref_of(u) {
+        return Some((refs(c), "as_ref"));
+    }
+    if let Some(ms) = u.iter().all_opt() {
+        return Some((ms.into_iter().map(|m| &**m).collect(), "iter"));
+    }
+    if let Some(ms) = crate::caps::bound::<RUnit, &'static mut Leaf>().iter_shared_of(u) {
+        return Some((ms.into_iter().map(|m| &**m).collect(), "into_iter"));
+    }
+    None
+}
